@@ -32,7 +32,7 @@ vars == <<kvars, bootMemo, pidsReused, objs, ev>>
 view == <<kvars, bootMemo, pidsReused, objs>>
 
 NoObj == [pid |-> -1, forInc |-> 0, ident |-> 0, gone |-> FALSE, reused |-> FALSE,
-          saidFalse |-> FALSE, kind |-> "-", blk |-> FALSE]
+          saidFalse |-> FALSE, kind |-> "-", blk |-> FALSE, waited |-> FALSE, pc |-> FALSE]
 
 Used(o) == objs[o].pid # -1
 
@@ -74,13 +74,13 @@ New(o, p, kd) ==
        THEN /\ objs' = [objs EXCEPT ![o] = [pid |-> p, forInc |-> table[p].inc,
                                             ident |-> Ident(p), gone |-> FALSE,
                                             reused |-> FALSE, saidFalse |-> FALSE,
-                                            kind |-> kd, blk |-> FALSE]]
+                                            kind |-> kd, blk |-> FALSE, waited |-> FALSE, pc |-> FALSE]]
             /\ bootMemo' = MemoAfterIdent
             /\ ev' = [op |-> "new", o |-> o, pid |-> p, kind |-> kd, res |-> "ok"]
        ELSE IF kd = "popen" /\ p > 0
          THEN /\ objs' = [objs EXCEPT ![o] = [pid |-> p, forInc |-> 0, ident |-> -1,
                                               gone |-> TRUE, reused |-> FALSE,
-                                              saidFalse |-> FALSE, kind |-> kd, blk |-> FALSE]]
+                                              saidFalse |-> FALSE, kind |-> kd, blk |-> FALSE, waited |-> FALSE, pc |-> FALSE]]
               /\ UNCHANGED bootMemo
               /\ ev' = [op |-> "new", o |-> o, pid |-> p, kind |-> kd, res |-> "ok"]
          ELSE /\ UNCHANGED <<objs, bootMemo>>
@@ -163,16 +163,23 @@ Set(o, k) ==
                       toInc |-> table[p].inc, forInc |-> ob.forInc, owner |-> table[p].inc]
   /\ UNCHANGED kvars
 
-\* ppid(): identity check, then reads whoever owns the PID
+\* ppid(): identity check, then reads whoever owns the PID.  ppid() is one of
+\* the methods oneshot() memoises: inside a block a value computed earlier in
+\* the block is returned as is (no identity check, no system call).
 Ppid(o) ==
   /\ Used(o)
-  /\ LET ob == objs[o]  p == ob.pid  r == RaiseIfReused(o) IN
-     /\ bootMemo' = r[3]
-     /\ pidsReused' = r[4]
-     /\ objs' = [objs EXCEPT ![o] = r[2]]
-     /\ ev' = [op |-> "ppid", o |-> o, pid |-> p,
-               res |-> IF r[1] \/ ~Live(p) THEN "NSP" ELSE "val",
-               forInc |-> ob.forInc, owner |-> table[p].inc]
+  /\ IF objs[o].blk /\ objs[o].pc
+       THEN /\ ev' = [op |-> "ppid", o |-> o, pid |-> objs[o].pid, res |-> "val",
+                      forInc |-> objs[o].forInc, owner |-> objs[o].forInc, cached |-> TRUE]
+            /\ UNCHANGED <<bootMemo, pidsReused, objs>>
+       ELSE LET ob == objs[o]  p == ob.pid  r == RaiseIfReused(o)
+                ok == ~(r[1] \/ ~Live(p)) IN
+            /\ bootMemo' = r[3]
+            /\ pidsReused' = r[4]
+            /\ objs' = [objs EXCEPT ![o] = [r[2] EXCEPT !.pc = (ob.blk /\ ok)]]
+            /\ ev' = [op |-> "ppid", o |-> o, pid |-> p,
+                      res |-> IF ok THEN "val" ELSE "NSP",
+                      forInc |-> ob.forInc, owner |-> table[p].inc, cached |-> FALSE]
   /\ UNCHANGED kvars
 
 \* `with p.oneshot():` entered / left on the object.  A block changes speed,
@@ -180,7 +187,7 @@ Ppid(o) ==
 \* predictions of every other action are the same inside and outside.
 Oneshot(o, enter) ==
   /\ Used(o) /\ "oneshot" \in Kinds /\ objs[o].blk = ~enter
-  /\ objs' = [objs EXCEPT ![o].blk = enter]
+  /\ objs' = [objs EXCEPT ![o].blk = enter, ![o].pc = FALSE]
   /\ ev' = [op |-> IF enter THEN "enter" ELSE "exit", o |-> o]
   /\ UNCHANGED <<kvars, bootMemo, pidsReused>>
 
@@ -189,9 +196,10 @@ Oneshot(o, enter) ==
 \* while anybody owns the PID.  Identity state is not touched.
 Wait0(o) ==
   /\ Used(o)
-  /\ ev' = [op |-> "wait", o |-> o, pid |-> objs[o].pid,
-            res |-> IF Live(objs[o].pid) THEN "timeout" ELSE "none"]
-  /\ UNCHANGED <<kvars, bootMemo, pidsReused, objs>>
+  /\ LET done == objs[o].waited \/ ~Live(objs[o].pid) IN    \* a returned wait() is remembered
+     /\ ev' = [op |-> "wait", o |-> o, pid |-> objs[o].pid, res |-> IF done THEN "none" ELSE "timeout"]
+     /\ objs' = [objs EXCEPT ![o].waited = done]
+  /\ UNCHANGED <<kvars, bootMemo, pidsReused>>
 
 \* a == b and hash(a) == hash(b)
 Eq(a, b) ==
@@ -249,7 +257,7 @@ C01_ReusedRaises ==
 
 \* C05 (shared clause): ppid()/children()/parent() raise on a recycled PID
 C05_PpidReusedRaises ==
-  [][(ev'.op = "ppid" /\ ev'.owner # 0 /\ ev'.owner # ev'.forInc) => ev'.res = "NSP"]_vars
+  [][(ev'.op = "ppid" /\ ~ev'.cached /\ ev'.owner # 0 /\ ev'.owner # ev'.forInc) => ev'.res = "NSP"]_vars
 
 \* C02: == follows the process, not the PID
 \* (objects built for an already-gone child are outside the clause)
